@@ -190,7 +190,7 @@ def exec_lines(lines):
 def shrink(line, verdict, budget=120):
     """delta-debug the comma/semicolon separated list fields of a failing input line."""
     kind = verdict.split(' ')[0]
-    clause = verdict.split('clause: ')[-1] if 'clause: ' in verdict else ''
+    clause = verdict.split('clause: ')[-1].split(' ')[0] if 'clause: ' in verdict else ''
     inp = line.split(' => ')[0]
     best = inp
     used = 0
